@@ -371,7 +371,13 @@ func asTypeOfAttrExpr(attrs hcl.Attributes, bSchema *schema.BlockSchema) (cty.Ty
 		return cty.DynamicPseudoType, false
 	}
 
-	aSchema := bSchema.Body.Attributes[attrName]
+	if bSchema.Body == nil {
+		return cty.DynamicPseudoType, false
+	}
+	aSchema, ok := bSchema.Body.Attributes[attrName]
+	if !ok {
+		return cty.DynamicPseudoType, false
+	}
 	_, ok = aSchema.Constraint.(schema.TypeDeclaration)
 	if !ok {
 		return cty.DynamicPseudoType, false
